@@ -148,6 +148,14 @@ class Signal( NamedObject, Connectable ):
       assert isinstance( Type, type ) and ( issubclass( Type, Bits ) or is_bitstruct_class(Type) ), \
               f"RTL signal can only be of Bits type or bitstruct type, not {Type}.\n" \
               f"Note: an integer is also accepted: Wire(32) is equivalent to Wire(Bits32))"
+      if not issubclass( Type, Bits ):
+        # The signals of the fields are created when s.<field> is looked up
+        # and not found: a field called like a method of the signal itself
+        # ( s.x.inverse, s.x.get_type ... ) would silently be that method
+        for name in Type.__bitstruct_fields__:
+          if hasattr( type(s), name ):
+            raise TypeError( f"Field '{name}' of bitstruct {Type.__name__} cannot be reached through a signal: "
+                             f"{type(s).__name__}.{name} is an attribute of every signal. Please rename the field." )
 
     s._dsl.Type = Type
     s._dsl.type_instance = None
